@@ -737,12 +737,22 @@ def run_plan(plan):
             sim.stat("probe:hostile_want_refused")
         elif outcome.get("retry_failed") and mut["ref_changing"]:
             sim.stat("probe:failed_after_refs_changed")
+        elif outcome.get("retry_failed") and plan.get("mutator"):
+            # as for a first attempt: a transfer that *fails* while
+            # maintenance runs on the served repository is counted, not
+            # alarmed (seen once in 150 000 thorough plans: gc consolidated
+            # the pack a push had just installed before its post-install
+            # validation re-opened it -> PackFileDisappeared in receive-pack)
+            sim.stat("probe:failed_during_maintenance")
+            sim.stat("failed_during_maintenance:" +
+                     type(outcome.get("error")).__name__)
         elif outcome.get("retry_failed"):
             viols.append({
                 "sig": f"C05/no-progress-after-faults/{op}/"
                 f"{type(outcome.get('error')).__name__}",
                 "detail": f"first {outcome.get('first_error')!r} then "
-                f"{outcome.get('error')!r}"})
+                f"{outcome.get('error')!r}; server: "
+                f"{(outcome.get('server_errors') or [])[-2:]}"})
         if not outcome.get("ok"):
             err = outcome.get("error")
             sim.stat("probe:failed_transfer")
